@@ -38,14 +38,78 @@ func constInt(f *ex.File, name string) uint64 {
 	return 0
 }
 
-func txCacheCalls(f *ex.File, fn string) []string {
-	var out []string
-	for _, c := range f.Calls(f.MustFunc(fn).Body) {
-		if strings.HasPrefix(c, "idx.TxCache.") {
-			out = append(out, strings.TrimPrefix(c, "idx.TxCache."))
+type condCall struct {
+	name  string
+	conds []string
+}
+
+// txCacheCalls lists the idx.TxCache.* calls of a function in source order, each with the chain of
+// enclosing loop ranges and if-conditions (so a call that moves under a condition changes the fact).
+func txCacheCalls(f *ex.File, fn string) []condCall {
+	var out []condCall
+	var walk func(n ast.Node, stack []string)
+	walkList := func(list []ast.Stmt, stack []string) {
+		for _, st := range list {
+			walk(st, stack)
 		}
 	}
+	walk = func(n ast.Node, stack []string) {
+		switch x := n.(type) {
+		case nil:
+			return
+		case *ast.BlockStmt:
+			walkList(x.List, stack)
+		case *ast.IfStmt:
+			if x.Init != nil {
+				walk(x.Init, stack)
+			}
+			walk(x.Body, append(append([]string(nil), stack...), f.Src(x.Cond)))
+			if x.Else != nil {
+				walk(x.Else, append(append([]string(nil), stack...), "!("+f.Src(x.Cond)+")"))
+			}
+		case *ast.RangeStmt:
+			walk(x.Body, append(append([]string(nil), stack...), "range "+f.Src(x.X)))
+		case *ast.ForStmt:
+			c := "for"
+			if x.Cond != nil {
+				c = "for " + f.Src(x.Cond)
+			}
+			walk(x.Body, append(append([]string(nil), stack...), c))
+		default:
+			ast.Inspect(n, func(y ast.Node) bool {
+				switch z := y.(type) {
+				case *ast.BlockStmt, *ast.IfStmt, *ast.RangeStmt, *ast.ForStmt:
+					if y != n {
+						walk(y, stack)
+						return false
+					}
+				case *ast.CallExpr:
+					if c := f.Src(z.Fun); strings.HasPrefix(c, "idx.TxCache.") {
+						out = append(out, condCall{strings.TrimPrefix(c, "idx.TxCache."), append([]string(nil), stack...)})
+					}
+				}
+				return true
+			})
+		}
+	}
+	walk(f.MustFunc(fn).Body, nil)
 	return out
+}
+
+func defCondCalls(name string, cs []condCall) {
+	var parts []string
+	for _, c := range cs {
+		parts = append(parts, fmt.Sprintf("(%s, %s)", ex.LeanStr(c.name), ex.StrList(c.conds)))
+	}
+	fmt.Printf("def %s : List (String × List String) := [%s]\n", name, strings.Join(parts, ", "))
+}
+
+func plainNames(cs []condCall) []string {
+	var r []string
+	for _, c := range cs {
+		r = append(r, c.name)
+	}
+	return r
 }
 
 func main() {
@@ -88,9 +152,9 @@ func main() {
 	fmt.Printf("def disconnectCallers : List (String × Bool) := [%s]\n", strings.Join(parts, ", "))
 
 	ui := ex.Parse("blockchain/indexers/unspentindex.go")
-	ex.DefStrList("txCacheCallsConnect", txCacheCalls(ui, "UnspentIndex.ConnectBlock"))
-	ex.DefStrList("txCacheCallsDisconnect", txCacheCalls(ui, "UnspentIndex.DisconnectBlock"))
-	ex.DefStrList("txCacheCallsFetch", txCacheCalls(ui, "UnspentIndex.FetchTx"))
+	defCondCalls("txCacheCallsConnect", txCacheCalls(ui, "UnspentIndex.ConnectBlock"))
+	defCondCalls("txCacheCallsDisconnect", txCacheCalls(ui, "UnspentIndex.DisconnectBlock"))
+	ex.DefStrList("txCacheCallsFetch", plainNames(txCacheCalls(ui, "UnspentIndex.FetchTx")))
 
 	// functions of chainstoreffldb.go other than GetBlock / the constructor that mention the block cache
 	n := 0
